@@ -241,6 +241,12 @@ def run_unit(unit, tier, acc):
             check(ver, ('filter', s, ('call', 'false', [])), env, w, acc, g)
             for v in [1, 2, 'a', 3]:
                 check(ver, ('filter', s, ('gcmp', '=', ('ctx',), L(v))), env, w, acc, g)
+            # two operands that are consumed in lockstep, each with an inner focus of its own
+            flt = ('filter', s, ('gcmp', '!=', ('pos',), L(0)))
+            check(ver, ('call', 'deep-equal', [flt, flt]), env, w, acc, g)
+            check(ver, ('call', 'deep-equal', [('filter', s, ('gcmp', '>', ('pos',), L(1))), ('filter', s, ('gcmp', '<', ('pos',), ('last',)))]), env, w, acc, g)
+            check(ver, ('call', 'deep-equal', [('filter', s, L(1)), ('filter', s, ('last',))]), env, w, acc, g)
+            check(ver, ('call', 'deep-equal', [s, ('call', 'reverse', [('call', 'reverse', [s])])]), env, w, acc, g)
             # numeric predicates whose value depends on the focus: several items can satisfy value = position()
             check(ver, ('filter', s, ('pos',)), env, w, acc, g)
             check(ver, ('filter', s, ('arith', '+', ('arith', '-', ('last',), ('pos',)), L(1))), env, w, acc, g)
